@@ -69,6 +69,8 @@ impl Server for AttemptServer {
 
 /// GameSpy 3: handshake and data request are one retry unit with two request positions
 pub struct Gs3AttemptServer {
+    /// which malformed reply: 0 = right kind with a broken body, 1 = a reply of the other kind
+    pub alt: usize,
     pub data: Vec<Vec<u8>>,
     pub pos: usize,
     pub plan: Vec<Att>,
@@ -107,10 +109,11 @@ impl Server for Gs3AttemptServer {
                 }
             }
             Att::Malformed => {
-                if hs {
-                    conn.reply(vec![0x09, 0, 0, 0, 1, b'x', 0]);
-                } else {
-                    conn.reply(vec![0x00, 0, 0, 0, 1, b'b', b'a', b'd', 0]);
+                match (hs, self.alt % 2) {
+                    (true, 0) => conn.reply(vec![0x09, 0, 0, 0, 1, b'x', 0]),
+                    (true, _) => conn.reply(vec![0x00, 0, 0, 0, 1, b'4', b'2', 0]),
+                    (false, 0) => conn.reply(vec![0x00, 0, 0, 0, 1, b'b', b'a', b'd', 0]),
+                    (false, _) => conn.reply(vec![0x09, 0, 0, 0, 1, b'4', b'2', 0]),
                 }
             }
             Att::Silent => {}
@@ -125,7 +128,9 @@ type R = Result<String, GDErrorKind>;
 struct Subject {
     name: &'static str,
     /// run the query with retry count r against the server for (position, plan); returns the rendered result and the net
-    run: Box<dyn Fn(usize, &[Att], usize) -> (Outcome<R>, Net)>,
+    run: Box<dyn Fn(usize, &[Att], usize, usize) -> (Outcome<R>, Net)>,
+    /// how many different malformed replies the subject knows (the last argument of `run` selects one)
+    malformed_alternatives: usize,
     /// does this send start an attempt at position p?
     is_attempt: Box<dyn Fn(usize, &[u8]) -> bool>,
     positions: usize,
@@ -157,9 +162,10 @@ fn simple_subject<T: 'static>(name: &'static str, is_request: fn(&[u8]) -> bool,
         positions: 1,
         try_positions: vec![],
         unit: false,
+        malformed_alternatives: malformed.len(),
         is_attempt: Box::new(move |_, d| is_request(d)),
-        run: Box::new(move |_pos, plan, r| {
-            let server = AttemptServer { is_request, valid: valid.clone(), malformed: malformed.clone(), plan: plan.to_vec(), attempts: 0 };
+        run: Box::new(move |_pos, plan, r, alt| {
+            let server = AttemptServer { is_request, valid: valid.clone(), malformed: vec![malformed[alt % malformed.len()].clone()], plan: plan.to_vec(), attempts: 0 };
             let run = run_with(server, DEFAULT_STEP_LIMIT, || call(ts(r)));
             (to_r(run.outcome, render), run.net)
         }),
@@ -178,18 +184,26 @@ fn subjects(rng: &mut Rng) -> Vec<Subject> {
         let (i, p, ru) = (vec![st.info_message()], vec![st.players_message()], vec![st.rules_message()]);
         let toggle = if try_mode { GatherToggle::Try } else { GatherToggle::Enforce };
         let gs = GatheringSettings { players: toggle, rules: toggle, check_app_id: true };
-        let malformed: [Vec<u8>; 3] = [vec![0xff, 0xff, 0xff, 0xff, 0x49, 0x11], vec![0xff, 0xff, 0xff, 0xff, 0x44, 0x05, 0x00], vec![0xff, 0xff, 0xff, 0xff, 0x45, 0x09]];
+        // per position two replies that fail decoding: a truncated reply of the right kind, and (info) a reply of
+        // another kind / (players) a list cut inside the second entry. The client does not look at the kind byte of
+        // players and rules replies, so a reply of another kind is not "malformed" there (observed, not judged).
+        let malformed: [[Vec<u8>; 2]; 3] = [
+            [vec![0xff, 0xff, 0xff, 0xff, 0x49, 0x11], vec![0xff, 0xff, 0xff, 0xff, 0x44, 0x00]],
+            [vec![0xff, 0xff, 0xff, 0xff, 0x44, 0x05, 0x00], vec![0xff, 0xff, 0xff, 0xff, 0x44, 0x02, 0x00, 0x41, 0x00, 0x01, 0x00, 0x00, 0x00, 0x00, 0x00, 0x80, 0x3f, 0x01]],
+            [vec![0xff, 0xff, 0xff, 0xff, 0x45, 0x09], vec![0xff, 0xff, 0xff, 0xff, 0x45, 0x09]],
+        ];
         v.push(Subject {
             name: if try_mode { "valve(try)" } else { "valve(enforce)" },
             positions: 3,
             unit: false,
+            malformed_alternatives: 2,
             try_positions: if try_mode { vec![1, 2] } else { vec![] },
             is_attempt: Box::new(|p, d| match p {
                 0 => fresh_info(d),
                 1 => fresh_players(d),
                 _ => fresh_rules(d),
             }),
-            run: Box::new(move |pos, plan, r| {
+            run: Box::new(move |pos, plan, r, alt| {
                 let mut server = A2sServer::new(i.clone(), p.clone(), ru.clone());
                 let valid = [i.clone(), p.clone(), ru.clone()];
                 server.plan[pos] = plan
@@ -198,7 +212,7 @@ fn subjects(rng: &mut Rng) -> Vec<Subject> {
                         Att::Valid => Behaviour::Answer(valid[pos].clone()),
                         Att::Silent => Behaviour::Silent,
                         Att::SendFails => Behaviour::SendFails,
-                        Att::Malformed => Behaviour::Answer(vec![malformed[pos].clone()]),
+                        Att::Malformed => Behaviour::Answer(vec![malformed[pos][alt % 2].clone()]),
                     })
                     .chain(std::iter::once(Behaviour::Answer(valid[pos].clone())))
                     .collect();
@@ -227,9 +241,9 @@ fn subjects(rng: &mut Rng) -> Vec<Subject> {
             let d = st.encode(rng);
             let isreq: fn(&[u8]) -> bool = if ver == Ver::Three { |d| d == b"\xff\xff\xff\xffgetstatus\0" } else { |d| d == b"\xff\xff\xff\xffstatus\0" };
             match ver {
-                Ver::One => v.push(simple_subject(name, isreq, vec![d], vec![vec![1, 2, 3, 4, 5]], |t| quake::one::query(&addr(), t), dbg)),
-                Ver::Two => v.push(simple_subject(name, isreq, vec![d], vec![vec![1, 2, 3, 4, 5]], |t| quake::two::query(&addr(), t), dbg)),
-                Ver::Three => v.push(simple_subject(name, isreq, vec![d], vec![vec![1, 2, 3, 4, 5]], |t| quake::three::query(&addr(), t), dbg)),
+                Ver::One => v.push(simple_subject(name, isreq, vec![d], vec![vec![1, 2, 3, 4, 5], b"\xff\xff\xff\xffprint\n\\a\\b\n".to_vec()], |t| quake::one::query(&addr(), t), dbg)),
+                Ver::Two => v.push(simple_subject(name, isreq, vec![d], vec![vec![1, 2, 3, 4, 5], b"\xff\xff\xff\xffstatusResponse\n\\a\\b\n".to_vec()], |t| quake::two::query(&addr(), t), dbg)),
+                Ver::Three => v.push(simple_subject(name, isreq, vec![d], vec![vec![1, 2, 3, 4, 5], b"\xff\xff\xff\xffprint\n\\a\\b\n".to_vec()], |t| quake::three::query(&addr(), t), dbg)),
             }
         }
         let bed = loop {
@@ -238,10 +252,10 @@ fn subjects(rng: &mut Rng) -> Vec<Subject> {
                 break b;
             }
         };
-        v.push(simple_subject("bedrock", |d| d == BEDROCK_PING, vec![bed.datagram()], vec![vec![0x00]], |t| games::minecraft::protocol::query_bedrock(&addr(), t), dbg));
+        v.push(simple_subject("bedrock", |d| d == BEDROCK_PING, vec![bed.datagram()], vec![vec![0x00], vec![0x1c, 0x00, 0x01]], |t| games::minecraft::protocol::query_bedrock(&addr(), t), dbg));
         let java = JavaState::gen(rng);
         let stream = java.stream(rng);
-        v.push(simple_subject("java", |d| d.len() > 2 && d[1] == 0x00, vec![stream], vec![vec![0x02, 0x05, 0x00]], |t| games::minecraft::protocol::query_java(&addr(), t, None), dbg));
+        v.push(simple_subject("java", |d| d.len() > 2 && d[1] == 0x00, vec![stream], vec![vec![0x02, 0x05, 0x00], vec![0x03, 0x01, 0x00, 0x00]], |t| games::minecraft::protocol::query_java(&addr(), t, None), dbg));
         for (g, name, req) in [(LegacyGroup::V1_6, "legacy1.6", 0usize), (LegacyGroup::V1_4, "legacy1.4", 1), (LegacyGroup::VB1_8, "legacyb1.8", 2)] {
             let st = LegacyState::gen(rng, g);
             let isreq: fn(&[u8]) -> bool = match req {
@@ -249,7 +263,7 @@ fn subjects(rng: &mut Rng) -> Vec<Subject> {
                 1 => |d| d == [0xfe, 0x01],
                 _ => |d| d == [0xfe],
             };
-            v.push(simple_subject(name, isreq, vec![st.stream()], vec![vec![0x00]], move |t| games::minecraft::protocol::query_legacy_specific(g, &addr(), t), dbg));
+            v.push(simple_subject(name, isreq, vec![st.stream()], vec![vec![0x00], vec![0xff, 0x00, 0x05, 0x00, 0x41]], move |t| games::minecraft::protocol::query_legacy_specific(g, &addr(), t), dbg));
         }
         let md = loop {
             let d = MindustryState::gen(rng).datagram();
@@ -260,7 +274,7 @@ fn subjects(rng: &mut Rng) -> Vec<Subject> {
         v.push(simple_subject("mindustry", |d| d == [0xfe, 0x01], vec![md], vec![vec![0x05, 0x01]], |t| games::mindustry::query(&addr().ip(), Some(4000), &t), dbg));
         let mut ff = FfowState::gen(rng);
         ff.challenge = None;
-        v.push(simple_subject("ffow", |d| d == b"\xff\xff\xff\xff\x46LSQ", vec![ff.datagram()], vec![vec![0xff, 0xff, 0xff, 0xff, 0x46, 0x01]], |t| games::ffow::query_with_timeout(&addr().ip(), Some(4000), t), dbg));
+        v.push(simple_subject("ffow", |d| d == b"\xff\xff\xff\xff\x46LSQ", vec![ff.datagram()], vec![vec![0xff, 0xff, 0xff, 0xff, 0x46, 0x01], vec![0xff, 0xff, 0xff, 0xff, 0x49, 0x11, 0x00]], |t| games::ffow::query_with_timeout(&addr().ip(), Some(4000), t), dbg));
     }
     // --- gamespy 3 / jc2m: handshake + data
     {
@@ -272,9 +286,10 @@ fn subjects(rng: &mut Rng) -> Vec<Subject> {
             positions: 3,
             try_positions: vec![],
             unit: true,
+            malformed_alternatives: 2,
             is_attempt: Box::new(|p, d| if p != 1 { d == [0xfe, 0xfd, 0x09, 0, 0, 0, 1] } else { d.len() >= 7 && d[.. 3] == [0xfe, 0xfd, 0x00] }),
-            run: Box::new(move |pos, plan, r| {
-                let server = Gs3AttemptServer { data: data.clone(), pos, plan: plan.to_vec(), handshakes: 0, data_requests: 0 };
+            run: Box::new(move |pos, plan, r, alt| {
+                let server = Gs3AttemptServer { alt, data: data.clone(), pos, plan: plan.to_vec(), handshakes: 0, data_requests: 0 };
                 let run = run_with(server, DEFAULT_STEP_LIMIT, || gamespy::three::query(&addr(), ts(r)).map(|mut x| {
                     x.unused_entries.clear();
                     x
@@ -289,9 +304,10 @@ fn subjects(rng: &mut Rng) -> Vec<Subject> {
             positions: 3,
             try_positions: vec![],
             unit: true,
+            malformed_alternatives: 2,
             is_attempt: Box::new(|p, d| if p != 1 { d == [0xfe, 0xfd, 0x09, 0, 0, 0, 1] } else { d.len() >= 7 && d[.. 3] == [0xfe, 0xfd, 0x00] }),
-            run: Box::new(move |pos, plan, r| {
-                let server = Gs3AttemptServer { data: jd.clone(), pos, plan: plan.to_vec(), handshakes: 0, data_requests: 0 };
+            run: Box::new(move |pos, plan, r, alt| {
+                let server = Gs3AttemptServer { alt, data: jd.clone(), pos, plan: plan.to_vec(), handshakes: 0, data_requests: 0 };
                 let run = run_with(server, DEFAULT_STEP_LIMIT, || games::jc2m::query_with_timeout(&addr().ip(), Some(4000), ts(r)));
                 (to_r(run.outcome, dbg), run.net)
             }),
@@ -308,9 +324,10 @@ fn subjects(rng: &mut Rng) -> Vec<Subject> {
             name: if try_mode { "unreal2(try)" } else { "unreal2(enforce)" },
             positions: 3,
             unit: false,
+            malformed_alternatives: 3,
             try_positions: if try_mode { vec![1, 2] } else { vec![] },
             is_attempt: Box::new(|p, d| d == [0x79, 0, 0, 0, p as u8]),
-            run: Box::new(move |pos, plan, r| {
+            run: Box::new(move |pos, plan, r, alt| {
                 let mut server = U2Server::new(info.clone(), rules.clone(), players.clone());
                 let valid: [Vec<Vec<u8>>; 3] = [vec![info.clone()], rules.clone(), players.clone()];
                 server.plan[pos] = plan
@@ -319,7 +336,11 @@ fn subjects(rng: &mut Rng) -> Vec<Subject> {
                         Att::Valid => UBehaviour::Answer(valid[pos].clone()),
                         Att::Silent => UBehaviour::Silent,
                         Att::SendFails => UBehaviour::SendFails,
-                        Att::Malformed => UBehaviour::Answer(vec![vec![0x80, 0, 0, 0, 0x07]]),
+                        // an unknown packet kind, or a packet of one of the two other (valid) kinds
+                        Att::Malformed => UBehaviour::Answer(vec![match alt % 3 {
+                            0 => vec![0x80, 0, 0, 0, 0x07],
+                            a => vec![0x80, 0, 0, 0, ((pos + a) % 3) as u8, 0, 0, 0, 0],
+                        }]),
                     })
                     .chain(std::iter::once(UBehaviour::Answer(valid[pos].clone())))
                     .collect();
@@ -392,7 +413,7 @@ impl Check for C10 {
         let Some((s, pos)) = chosen else { return };
         let rmax = cx.tier.pick(2, 3);
         // baselines: fault-free, and (for Try positions) the result with that section absent = all-timeouts run
-        let (base, _) = (s.run)(pos, &[], 0);
+        let (base, _) = (s.run)(pos, &[], 0, 0);
         let base = match base {
             Outcome::Returned(Ok(b)) => b,
             other => {
@@ -402,24 +423,32 @@ impl Check for C10 {
         };
         let is_try = s.try_positions.contains(&pos);
         let absent_baseline: Option<String> = if is_try {
-            match (s.run)(pos, &[Att::Silent], 0).0 {
+            match (s.run)(pos, &[Att::Silent], 0, 0).0 {
                 Outcome::Returned(Ok(b)) => Some(b),
                 _ => None,
             }
         } else {
             None
         };
-        for (r, v) in vectors(rmax) {
-            let (out, net) = (s.run)(pos, &v, r);
+        let alts = s.malformed_alternatives.max(1);
+        for (alt, (r, v)) in (0 .. alts).flat_map(|a| vectors(rmax).into_iter().map(move |x| (a, x))) {
+            // the other malformed replies only matter for vectors that contain one
+            if alt > 0 && !v.contains(&Att::Malformed) {
+                continue;
+            }
+            let (out, net) = (s.run)(pos, &v, r, alt);
             cx.eval();
             let attempts = net.sends().iter().filter(|(_, d)| (s.is_attempt)(pos, d)).count();
             let window = &v[.. r + 1];
             let first_nt = window.iter().position(|a| matches!(a, Att::Malformed | Att::Valid));
             let expected_attempts = first_nt.map(|i| i + 1).unwrap_or(r + 1);
             let label = format!("{}|pos={pos}|r={r}", s.name);
-            let detail = |what: &str| json!({"what": what, "subject": s.name, "position": pos, "retries": r, "vector": format!("{v:?}"), "attempts_seen": attempts, "attempts_expected": expected_attempts, "outcome": format!("{out:?}").chars().take(300).collect::<String>(), "sends": net.sends().iter().map(|(_, d)| hex(d)).collect::<Vec<_>>()});
+            if alt > 0 {
+                cx.count("vectors-with-an-alternative-malformed-reply");
+            }
+            let detail = |what: &str| json!({"what": what, "subject": s.name, "position": pos, "retries": r, "vector": format!("{v:?}"), "malformed_reply_variant": alt, "attempts_seen": attempts, "attempts_expected": expected_attempts, "outcome": format!("{out:?}").chars().take(300).collect::<String>(), "sends": net.sends().iter().map(|(_, d)| hex(d)).collect::<Vec<_>>()});
             if v.iter().any(|a| *a != Att::Valid) {
-                cx.nontrivial(hash64(format!("{label}|{v:?}").as_bytes()));
+                cx.nontrivial(hash64(format!("{label}|{v:?}|{alt}").as_bytes()));
             }
             cx.shape(&label);
             match &out {
